@@ -279,6 +279,10 @@ static std::string run(const std::vector<std::string>& a) {
     if (op == "hotp") {
         TypeHash ty = type_of(a[1]); Bytes k = bx(a[2]); uint64_t c = strtoull(a[3].c_str(), 0, 10); int d = atoi(a[4].c_str());
         secure_buffer<uint8_t> sk(k.size()); if (!k.empty()) memcpy(sk.data(), k.data(), k.size());
+        // the SAME storage held another key of the same length a moment ago (same counter, same parameters): a result remembered by address must not come back
+        if (!k.empty()) { for (size_t i = 0; i < k.size(); ++i) { k[i] ^= 0x5A; sk[i] ^= 0x5A; }
+            try { (void)get_hotp_code(k.data(), k.size(), c, d, ty); (void)get_hotp_code(k, c, d, ty); (void)get_hotp_code(sk, c, d, ty); } catch (...) {}
+            for (size_t i = 0; i < k.size(); ++i) { k[i] ^= 0x5A; sk[i] ^= 0x5A; } }
         std::vector<std::pair<std::string, Thunk> > fs;
         FORM("ptr", ok_int(get_hotp_code(k.data(), k.size(), c, d, ty)));
         FORM("ptr-misaligned", ({ Misaligned mk(k, 2); ok_int(get_hotp_code(mk.p, k.size(), c, d, ty)); }));
@@ -317,6 +321,13 @@ static std::string run(const std::vector<std::string>& a) {
         TypeHash ty = type_of(a[1]); Bytes k = bx(a[2]); int p = atoi(a[3].c_str()), d = atoi(a[4].c_str());
         set_clock(a[5], a[6], a[7]);
         secure_buffer<uint8_t> sk(k.size()); if (!k.empty()) memcpy(sk.data(), k.data(), k.size());
+        // as above, for the clock form: same storage, same instant, another key just before (the clock is set again afterwards, the priming reads consume ticks)
+        if (!k.empty()) { for (size_t i = 0; i < k.size(); ++i) { k[i] ^= 0x5A; sk[i] ^= 0x5A; }
+            try { (void)get_totp_code(k.data(), k.size(), p, d, ty); } catch (...) {}
+            try { (void)get_totp_code(k, p, d, ty); } catch (...) {}
+            try { (void)get_totp_code(sk, p, d, ty); } catch (...) {}
+            for (size_t i = 0; i < k.size(); ++i) { k[i] ^= 0x5A; sk[i] ^= 0x5A; }
+            set_clock(a[5], a[6], a[7]); }
         std::vector<std::pair<std::string, Thunk> > fs;
         FORM("ptr", ok_int(get_totp_code(k.data(), k.size(), p, d, ty)));
         FORM("vec", ok_int(get_totp_code(k, p, d, ty)));
